@@ -224,8 +224,8 @@ Proof.
   induction cs as [|c r IH]; cbn [fold_left]; intros result; [cbn; lia|].
   specialize (IH (add_common declared result c)).
   assert (length (add_common declared result c) <= S (length result)).
-  { unfold add_common, dict_setdefault. destruct (py_in_str _ _); [lia|]. destruct (dict_has _ _); [lia|].
-    apply length_dict_set. }
+  { unfold add_common, dict_setdefault. destruct (py_in_str (snd c) declared); [apply Nat.le_succ_diag_r|].
+    destruct (dict_has (fst c) result); [apply Nat.le_succ_diag_r|]. apply length_dict_set. }
   cbn [length]. lia.
 Qed.
 Lemma normalize_length caller data : normalize caller = Ok data -> length data <= length caller + 17.
@@ -234,5 +234,6 @@ Proof.
   destruct (normalize_loop caller [] global_namespaces) as [[declared result]| | |] eqn:EL; try discriminate.
   intros H. injection H as <-. apply normalize_loop_length in EL.
   pose proof (add_common_length declared common_namespaces result) as HC.
-  change (length global_namespaces) with 2 in EL. change (length common_namespaces) with 15 in HC. lia.
+  eapply Nat.le_trans; [exact HC|]. eapply Nat.le_trans; [apply Nat.add_le_mono_r; exact EL|].
+  change (length global_namespaces) with 2. change (length common_namespaces) with 15. lia.
 Qed.
